@@ -247,3 +247,129 @@ func c16CodecShape(c *Ctx) {
 		}
 	}
 }
+
+// ---- C16.store-means-stored and C16.single-source ----------------------------------------------------
+
+func init() {
+	register(&Rule{Name: "C16.store-means-stored", Min: 1, Run: c16StoreMeansStored,
+		Doc: "the node store wrapper reports success only after the inner store of this very call succeeded"})
+	register(&Rule{Name: "C16.single-source", Min: 1, Run: c16SingleSource,
+		Doc: "an opened tree names a single source version exactly when exactly one version was merged"})
+	byProp["C16"] = append(byProp["C16"], "C16.store-means-stored", "C16.single-source")
+	explain["C16"] += " store-means-stored: persistEncryptor.Store returns nil only as the result of, or after the success of, the inner store in the same call — a success that skips the PUT (e.g. a 'seen this name' set filled before the upload succeeded) lets a commit be acknowledged whose version refers to an object that does not exist. single-source: mergeRoots sets tree.Source from the map of versions that were really merged and guards it with the length of that same map; Commit's 'nothing changed, write nothing' test reads Source and MergeSources."
+}
+
+func c16StoreMeansStored(c *Ctx) {
+	const rule = "C16.store-means-stored"
+	fn := mustFunc(c, "kv", "*persistEncryptor", "Store")
+	if fn == nil {
+		return
+	}
+	name := core.FuncName(fn)
+	var inner []ssa.CallInstruction
+	for _, call := range an.Calls(fn) {
+		if an.CalleeIs(call, mastPersistS3, "Persist", "Store") {
+			inner = append(inner, call)
+		}
+	}
+	k := 0
+	for _, b := range fn.Blocks {
+		ret, ok := b.Instrs[len(b.Instrs)-1].(*ssa.Return)
+		if !ok {
+			continue
+		}
+		rv := an.RetErr(ret)
+		// "return e.Persist.Store(...)": the inner call's own result
+		direct := false
+		for _, ic := range inner {
+			if ic.Value() != nil && rv == ssa.Value(ic.Value()) {
+				direct = true
+			}
+		}
+		if direct || !an.IsNilConst(rv) {
+			if direct {
+				k++
+				c.R.OK(rule, fmt.Sprintf("%s: return #%d is the inner store's result", name, k), c.P.Pos(ret.Pos()), "success means the PUT succeeded")
+			}
+			continue
+		}
+		k++
+		after := false
+		for _, ic := range inner {
+			if okS, _ := an.SuccessDominates(ic, ret); okS {
+				after = true
+			}
+		}
+		c.R.Cond(after, rule, fmt.Sprintf("%s: nil return #%d only after the inner store succeeded", name, k), c.P.Pos(ret.Pos()),
+			"dominated by the success of the inner Store", "Store can report success without having stored the object in this call: a commit is acknowledged although a node it refers to was never uploaded")
+	}
+	if k == 0 {
+		c.R.Unk(rule, name+": returns", c.P.Pos(fn.Pos()), "no return found that reports the inner store's outcome")
+	}
+}
+
+func c16SingleSource(c *Ctx) {
+	const rule = "C16.single-source"
+	fn := mustFunc(c, "kv", "", "mergeRoots")
+	srcF := mustField(c, "kv/internal/crdt", "Tree", "Source")
+	if fn == nil || srcF == nil {
+		return
+	}
+	name := core.FuncName(fn)
+	n := 0
+	for _, st := range an.StoresToField(fn, srcF) {
+		cl, ok := an.Unwrap(st.Val).(*ssa.Call)
+		if !ok || cl.Call.StaticCallee() == nil || len(cl.Call.Args) != 1 {
+			continue // Source = nil (reset) etc.
+		}
+		if _, isMap := cl.Call.Args[0].Type().Underlying().(*types.Map); !isMap {
+			continue
+		}
+		n++
+		m := cl.Call.Args[0]
+		good := false
+		var tested string
+		for _, blk := range fn.Blocks {
+			iff, ok := blk.Instrs[len(blk.Instrs)-1].(*ssa.If)
+			if !ok {
+				continue
+			}
+			cond, neg := an.StripNot(iff.Cond)
+			bo, ok := cond.(*ssa.BinOp)
+			if !ok || (bo.Op != token.EQL && bo.Op != token.NEQ) {
+				continue
+			}
+			var lenArg ssa.Value
+			for _, side := range []ssa.Value{bo.X, bo.Y} {
+				if lc, ok := side.(*ssa.Call); ok {
+					if bi, ok := lc.Call.Value.(*ssa.Builtin); ok && bi.Name() == "len" {
+						lenArg = lc.Call.Args[0]
+					}
+				}
+			}
+			if lenArg == nil {
+				continue
+			}
+			eq := bo.Op == token.EQL
+			if neg {
+				eq = !eq
+			}
+			si := 0
+			if !eq {
+				si = 1
+			}
+			if !an.OnlyVia(blk, si, st.Block()) {
+				continue
+			}
+			tested = lenArg.Name()
+			if an.SameValue(lenArg, m) {
+				good = true
+			}
+		}
+		c.R.Cond(good, rule, fmt.Sprintf("%s: Source is set under a length test of the same collection #%d", name, n), c.P.Pos(st.Pos()),
+			"len(m) == 1 guards Source = first key of m, for the same m (the versions really merged)", "tree.Source is taken from one collection but guarded by the length of another ("+tested+"): with several listed versions of which one is usable, Source stays unset although a single version was merged, Commit's no-op test fails and an unchanged tree is re-committed by every opener")
+	}
+	if n == 0 {
+		c.R.Unk(rule, name+": Source assignment", c.P.Pos(fn.Pos()), "no assignment of tree.Source from a map found")
+	}
+}
